@@ -886,9 +886,8 @@ def run(ctx):
         "names(lowering commutes with renaming a local binder)": names_cov,
         "lowering(Model/Lower.lean on the real CST)": lower_cov,
         "impl_oracle_failures": len(ctx.violations) + sum(h["count"] for h in ctx.known_hits),
-        "model_diffs": (n_eval - lower_cov.get("lower_texts", 0) - n_full - n_lit - usw.get("programs", 0) - n_tie_ok) + (n_str - n_lit_tie)
+        "model_diffs": (n_eval - lower_cov.get("lower_texts", 0) - n_full - n_lit - usw.get("programs", 0) - host_cov.get("readings", 0) - n_tie_ok) + (n_str - n_lit_tie)
                        + (lower_cov.get("lower_texts", 0) - lower_cov.get("lower_model_equals_real", 0))
-        "model_diffs": (n_eval - n_full - n_lit - usw.get("programs", 0) - host_cov.get("readings", 0) - n_tie_ok) + (n_str - n_lit_tie)
                        + (usw.get("tie_total", 0) - usw.get("tie_ok", 0)),
     }
     cov.update(cov0)
